@@ -55,6 +55,16 @@ class Unordered:
                     if isinstance(n, ast.For) and self.unordered(n.iter, f):
                         if any(isinstance(x, (ast.Yield, ast.YieldFrom)) for x in ast.walk(n)):
                             self.unordered_rets.add(f)
+                # partial(g, a, b): a, b are bound to g's first parameters
+                for n in walk_own(f.body):
+                    if isinstance(n, ast.Call) and dotted(n.func) in ("partial", "functools.partial") and n.args \
+                            and isinstance(n.args[0], ast.Name):
+                        r = self.prog.resolve_in(f, n.args[0].id) if isinstance(f, Func) else None
+                        if r and r[0] == "func":
+                            g = r[1]
+                            for j, a in enumerate(n.args[1:]):
+                                if j < len(g.params) and self.unordered(a, f):
+                                    self.set_params.add((g, g.params[j].name))
                 sites, _ = self.inf.sites(f)
                 for s in sites:
                     if s.kind not in ("call", "ctor", "new", "closurecall"):
@@ -230,6 +240,11 @@ class Unordered:
                 return "ok", "passed to a repository function (tracked inside the callee)"
             if d in ("split_dict",):
                 return "ok", "passed to a repository function (tracked inside the callee)"
+            if d in ("partial", "functools.partial") and par.args and isinstance(par.args[0], ast.Name) and par.args[0] is not n \
+                    and isinstance(f, Func):
+                r = self.prog.resolve_in(f, par.args[0].id)
+                if r and r[0] == "func":
+                    return "ok", "bound to a parameter of a repository function by partial (tracked inside the callee)"
             return "sensitive", f"argument of external call {d or norm(par.func)}"
         if isinstance(par, ast.keyword):
             gp = P.parent.get(id(par))
